@@ -1362,7 +1362,18 @@ impl World {
                     self.conns[k].dirty = true;
                     if let Some(frames) = self.dgram_frames.get(&f.dgram_id) {
                         let after = self.conns[k].c.stats().frame_rx.datagram;
-                        if !f.corrupted && after - before == frames.len() as u64 {
+                        if std::env::var("QV_TRACE_DG").is_ok() {
+                            eprintln!("DG t={} dgram {} copy {} corrupted {} injected {} -> conn {k}: frames {:?} rx before {before} after {after}", self.now, f.dgram_id, f.copy, f.corrupted, f.injected, frames);
+                        }
+                        // (a copy the attacker damaged behind its first packet still carries that packet intact:
+                        // what counts is whether the connection processed all of the datagram's frames)
+                        if after - before != frames.len() as u64 && after != before {
+                            // only part of the frames was processed: the model cannot tell which
+                            if let Some(l) = self.ledgers.get(self.conns[k].load_idx) {
+                                l.borrow_mut().dg_model_enabled = false;
+                            }
+                        }
+                        if after - before == frames.len() as u64 {
                             let cs = &self.conns[k];
                             let cap = if cs.side.is_client() { self.spec.client_tc.dgram_recv } else { self.spec.server_tc.dgram_recv };
                             if let (Some(cap), Some(l)) = (cap, self.ledgers.get(cs.load_idx)) {
